@@ -7,6 +7,7 @@ import (
 	"fmt"
 	"go/types"
 	"sort"
+	"strconv"
 	"strings"
 
 	"golang.org/x/tools/go/ssa"
@@ -275,6 +276,7 @@ func ruleJSONLEAFCLASS(c *Ctx, r *Report) {
 	}
 	wildGuard := func(f *ssa.Function) (string, string) {
 		paths, _ := c.enumPathsOpt(f, 20000, c.inlBool())
+		union, unionPos, unionSubj := "", "", ""
 		for _, p := range paths {
 			if p.Ret == nil {
 				continue
@@ -290,13 +292,36 @@ func ruleJSONLEAFCLASS(c *Ctx, r *Report) {
 			}
 			arg := c.key(call.Call.Args[0], re)
 			// the last positive atom on the text
-			for i := len(p.Atoms) - 1; i >= 0; i-- {
+			found := false
+			for i := len(p.Atoms) - 1; i >= 0 && !found; i-- {
 				a := p.Atoms[i]
+				if subj, set, pos, ok := c.charsetAtom(a); ok {
+					if pos {
+						// one meaning, many spellings: compared as "contains one of these characters"; a test
+						// written as a disjunction yields one Wild path per disjunct — the sets are united.
+						// The text tested must be the same one on every such path (a test on a rewritten copy
+						// of the text is a different predicate).
+						subj = strings.ReplaceAll(subj, arg, "TEXT")
+						if unionSubj != "" && unionSubj != subj {
+							return "tests on different texts: " + unionSubj + " / " + subj, c.instrPos(p.Ret)
+						}
+						unionSubj = subj
+						union += set
+						unionPos = c.instrPos(p.Ret)
+						found = true
+					}
+					continue
+				}
 				if a.Pos && (a.Kind == "call" || a.Kind == "bool") {
 					return strings.ReplaceAll(a.String(), arg, "TEXT"), c.instrPos(p.Ret)
 				}
 			}
-			return "<unconditional>", c.instrPos(p.Ret)
+			if !found {
+				return "<unconditional>", c.instrPos(p.Ret)
+			}
+		}
+		if union != "" {
+			return unionSubj + " contains one of " + strconv.Quote(sortedRunes(union)), unionPos
 		}
 		return "", ""
 	}
